@@ -94,6 +94,24 @@ func (w *c11iWorld) reset() {
 			w.t.Fatal(err)
 		}
 	}
+	// keys live in the same SQL database (the status list signs inside its own transaction, which the key store joins)
+	w.keys = nutsCrypto.NewDatabaseCryptoInstance(db)
+	w.res = c11iResolver{docs: map[string]*did.Document{}}
+	for _, d := range c11iDIDs {
+		id := did.MustParseDID(d)
+		kid := did.MustParseDIDURL(d + "#k1")
+		_, pub, err := w.keys.New(audit.TestContext(), nutsCrypto.StringNamingFunc(kid.String()))
+		if err != nil {
+			w.t.Fatal(err)
+		}
+		vm, err := did.NewVerificationMethod(kid, ssi.JsonWebKey2020, id, pub.(crypto.PublicKey))
+		if err != nil {
+			w.t.Fatal(err)
+		}
+		doc := &did.Document{ID: id}
+		doc.AddAssertionMethod(vm)
+		w.res.docs[d] = doc
+	}
 	var err error
 	w.istore, err = NewStore(db, path.Join(w.dir, fmt.Sprintf("issuer-%d.db", w.n)), storage.CreateTestBBoltStore(w.t, path.Join(w.dir, fmt.Sprintf("ibackup-%d.db", w.n))))
 	if err != nil {
@@ -198,22 +216,7 @@ func TestVerifC11i(t *testing.T) {
 	if nScen == 0 {
 		nScen = 5
 	}
-	w := &c11iWorld{t: t, ld: jsonld.NewTestJSONLDManager(t), dir: testio.TestDirectory(t), keys: nutsCrypto.NewMemoryCryptoInstance(t), res: c11iResolver{docs: map[string]*did.Document{}}}
-	for _, d := range c11iDIDs {
-		id := did.MustParseDID(d)
-		kid := did.MustParseDIDURL(d + "#k1")
-		_, pub, err := w.keys.New(audit.TestContext(), nutsCrypto.StringNamingFunc(kid.String()))
-		if err != nil {
-			t.Fatal(err)
-		}
-		vm, err := did.NewVerificationMethod(kid, ssi.JsonWebKey2020, id, pub.(crypto.PublicKey))
-		if err != nil {
-			t.Fatal(err)
-		}
-		doc := &did.Document{ID: id}
-		doc.AddAssertionMethod(vm)
-		w.res.docs[d] = doc
-	}
+	w := &c11iWorld{t: t, ld: jsonld.NewTestJSONLDManager(t), dir: testio.TestDirectory(t)}
 	w.reset()
 	fo, err := os.Create(filepath.Join(outDir, "ops.jsonl"))
 	if err != nil {
